@@ -94,6 +94,9 @@ def make_runs(ctx, rng):
         sdt = "-" if sd < 0 else day_text(rng, sd)
         edt = "-" if sd < 0 or (sd == ed and rng.random() < 0.5) else day_text(rng, ed)
         for lw, prev0 in phases(rng, c, (not ctx.quick) or rng.random() < 0.2):
+            # put the minute grid on the seconds of the start or of the end time, so that the first and the last
+            # instant of the window are among the instants checked (offsets are whole minutes)
+            lw = (lw - lw % 60 + rng.choice([st, en, en, rng.randrange(60)]) % 60) % WEEK
             day, sec = instant(rng, lw, c["off"])
             n = NCHECKS if sd >= 0 else 3 * 24 * 60
             cmds = ["sched %s %s %d %s %s" % (hms(st), hms(en), c["off"], sdt, edt),
